@@ -14,6 +14,7 @@ use std::collections::BTreeSet;
 
 pub const XRET: Address = address!("b0000000000000000000000000000000000000d1"); // BALANCE(EMPTY); SLOAD(0); STOP
 pub const XREV: Address = address!("b0000000000000000000000000000000000000d2"); // BALANCE(EMPTY); SLOAD(0); REVERT
+pub const XREVP: Address = address!("b0000000000000000000000000000000000000d3"); // BALANCE(precompile 4); BALANCE(COINBASE); REVERT
 pub const STALE: Address = address!("25a219378dad9b3503c8268c9ca836a52427a4fb"); // devnet-era history storage address
 pub const DELEG: Address = address!("7702000000000000000000000000000000000001"); // pre-existing delegation to BWRITE
 
@@ -24,6 +25,10 @@ fn xcode(revert: bool) -> Vec<u8> {
     } else {
         a.op(op::STOP).build()
     }
+}
+/// first touches the addresses that are warm without ever having been loaded, then reverts
+fn xcode_prewarmed() -> Vec<u8> {
+    Asm::new().push_addr(ID).op(op::BALANCE).op(op::POP).push_addr(COINBASE).op(op::BALANCE).op(op::POP).push_u(0).push_u(0).op(op::REVERT).build()
 }
 pub fn create2_target(init: Init, salt: u64) -> Address {
     A.create2(U256::from(salt).to_be_bytes::<32>(), keccak256(init.code()))
@@ -62,6 +67,7 @@ fn alphabet() -> Vec<Mac> {
         cg(DelegateCall, XREV),
         cg(DelegateCall, XRET),
         cg(StaticCall, XREV),
+        cg(Call, XREVP),
         Mac::Create2 { init: Init::SloadRevert, value: 0, salt: 9 },
         Mac::Create2 { init: Init::SloadOk, value: 0, salt: 8 },
         Mac::SelfDestruct(BOK),
@@ -84,6 +90,7 @@ pub fn build_case(spec: SpecId, al: Al, with_auth: bool, code: &[u8]) -> TxCase 
     w.insert(A, PlainAcc::contract(code).with_storage(1, 5));
     w.insert(XRET, PlainAcc::contract(&xcode(false)).with_balance(U256::from(1)));
     w.insert(XREV, PlainAcc::contract(&xcode(true)).with_balance(U256::from(1)));
+    w.insert(XREVP, PlainAcc::contract(&xcode_prewarmed()).with_balance(U256::from(1)));
     let mut d = vec![0xef, 0x01, 0x00];
     d.extend_from_slice(BWRITE.as_slice());
     w.insert(DELEG, PlainAcc { nonce: 1, code: d.into(), ..Default::default() });
@@ -367,7 +374,7 @@ pub fn run(ctx: &Ctx) -> i32 {
         .collect();
     let acc = merge_all(accs);
     let meta = Meta {
-        rule: format!("every macro program of depth <= {depth} over a 32-macro access alphabet (SLOAD/SSTORE of 2 slots, BALANCE/EXTCODE* of 10 addresses incl. coinbase, precompile, authority, delegated account, the devnet history address; 0-gas calls of all four kinds; calls and delegate calls to contracts that access and then return or revert; CREATE2 of reverting / succeeding init code that reads slot 0; SELFDESTRUCT) x 6 access lists (incl. one naming slots of the coinbase, which is the executing contract) x with/without an EIP-7702 authorization on BERLIN, LONDON, SHANGHAI, CANCUN, PRAGUE; distinct = distinct (spec, access list, authorization, cold/warm sequence)"),
+        rule: format!("every macro program of depth <= {depth} over a 33-macro access alphabet (SLOAD/SSTORE of 2 slots, BALANCE/EXTCODE* of 10 addresses incl. coinbase, precompile, authority, delegated account, the devnet history address; 0-gas calls of all four kinds; calls and delegate calls to contracts that access and then return or revert, one of them touching a precompile and the coinbase before reverting; CREATE2 of reverting / succeeding init code that reads slot 0; SELFDESTRUCT) x 6 access lists (incl. one naming slots of the coinbase, which is the executing contract) x with/without an EIP-7702 authorization on BERLIN, LONDON, SHANGHAI, CANCUN, PRAGUE; distinct = distinct (spec, access list, authorization, cold/warm sequence)"),
         assumptions: vec![
             "cold/warm is read off the gas each access instruction charged (forwarded call gas subtracted using the child frame's gas limit), never from a revm flag".into(),
             "model = EIP-2929/2930/3651/7702 accessed sets, snapshotted at every frame entry and restored when that frame does not end successfully; the created address is accessed by the creating frame".into(),
